@@ -218,6 +218,71 @@ Proof. unfold on_error.
   destruct (lookup corr (dests s)). { apply istep_other_kind; [congruence|intros c []]. }
   apply istep_scalar. reflexivity. Qed.
 
+(* ---- channel endpoint error: the images of every subscription it ends are taken back, the others keep theirs ---- *)
+Lemma imgs_of_cons_other r k e sm : k <> r -> imgs_of r ((k, e) :: sm) = imgs_of r sm.
+Proof. intros H. unfold imgs_of. cbn [lookup]. replace (k =? r) with false by lia. reflexivity. Qed.
+Lemma imgs_of_cons_same k e sm : imgs_of k ((k, e) :: sm) = entry_imgs e.
+Proof. unfold imgs_of, entry_imgs. cbn [lookup]. rewrite Z.eqb_refl. reflexivity. Qed.
+Lemma imgs_of_not_key r sm : ~ In r (keys sm) -> imgs_of r sm = [].
+Proof. intros H. unfold imgs_of. apply lookup_none_keys in H. rewrite H. reflexivity. Qed.
+Lemma chan_keep_keys k x sm r : In r (keys (chan_keep k x sm)) -> In r (keys sm).
+Proof. unfold chan_keep, keys. intros H. apply in_map_iff in H. destruct H as (p & <- & Hp). apply filter_In in Hp. apply in_map. tauto. Qed.
+
+Lemma track_chan_subs n x sm : map_ok n sm -> forall m,
+  (forall r, In r (keys sm) -> iget r m = imgs_of r sm) -> NoDup (map fst m) ->
+  exists m', track_imgs (chan_cbs KSub x sm) m = Some m' /\
+             (forall r, In r (keys sm) -> iget r m' = imgs_of r (chan_keep KSub x sm)) /\
+             (forall r, ~ In r (keys sm) -> iget r m' = iget r m) /\ NoDup (map fst m').
+Proof. induction sm as [|[k e] sm IH]; intros [Hnd F] m Hm Hn.
+  - exists m. cbn. repeat split; auto.
+  - inversion Hnd; subst. inversion F; subst. cbn in H3. destruct H3 as [_ [_ Hop]].
+    assert (Hok : map_ok n sm) by (split; auto).
+    unfold chan_cbs. cbn [flat_map fst snd]. fold (chan_cbs KSub x sm). rewrite track_app.
+    assert (Htail : forall m1, (forall r, r <> k -> iget r m1 = iget r m) -> NoDup (map fst m1) ->
+              exists m', track_imgs (chan_cbs KSub x sm) m1 = Some m' /\
+                (forall r, In r (keys sm) -> iget r m' = imgs_of r (chan_keep KSub x sm)) /\
+                (forall r, ~ In r (keys sm) -> iget r m' = iget r m1) /\ NoDup (map fst m')).
+    { intros m1 H1' H3'. apply (IH Hok m1); auto. intros r Hr. assert (k <> r) by (intros ->; auto).
+      rewrite H1' by auto. rewrite Hm by (right; exact Hr). apply imgs_of_cons_other; auto. }
+    assert (Hgk : iget k m = entry_imgs e) by (rewrite Hm by (left; reflexivity); apply imgs_of_cons_same).
+    unfold chan_keep. cbn [filter]. fold (chan_keep KSub x sm).
+    unfold chan_removed at 1. cbn [snd]. destruct (chan_hit KSub x e) as [o|] eqn:Eh.
+    + (* the subscription is ended *)
+      apply chan_hit_some in Eh. destruct Eh as [Eo _]. rewrite (Hop o Eo). cbn [negb].
+      cbn [track_imgs]. unfold close_sub_obj. rewrite (Hop o Eo). cbn [snd fst].
+      assert (Hg : iget k m = o_images o) by (rewrite Hgk; unfold entry_imgs; rewrite Eo; reflexivity).
+      rewrite (track_unavail_all k (o_images o) m Hg).
+      assert (Hk0 : imgs_of k (chan_keep KSub x sm) = []).
+      { apply imgs_of_not_key. intros Hin. apply chan_keep_keys in Hin. auto. }
+      destruct (o_images o) eqn:Ei.
+      * destruct (Htail m) as (m' & T & A & B & C); auto. exists m'. split; [exact T|]. split; [|split; [|exact C]].
+        -- intros r Hr. cbn in Hr. destruct Hr as [<-|Hr]; [|apply A; exact Hr]. rewrite B by auto. rewrite Hk0. exact Hg.
+        -- intros r Hr. apply B. intros Hin. apply Hr. right. exact Hin.
+      * destruct (Htail (iset k [] m)) as (m' & T & A & B & C).
+        { intros r Hne. apply iget_iset_other. auto. }
+        { apply iset_nodup. auto. }
+        exists m'. split; [exact T|]. split; [|split; [|exact C]].
+        -- intros r Hr. cbn in Hr. destruct Hr as [<-|Hr]; [|apply A; exact Hr]. rewrite B by auto. rewrite Hk0. apply iget_iset_same.
+        -- intros r Hr. rewrite B by (intros Hin; apply Hr; right; exact Hin). apply iget_iset_other. intros ->. apply Hr. left. reflexivity.
+    + (* untouched *)
+      cbn [negb track_imgs]. destruct (Htail m) as (m' & T & A & B & C); auto. exists m'. split; [exact T|]. split; [|split; [|exact C]].
+      -- intros r Hr. cbn in Hr. destruct Hr as [<-|Hr].
+         ++ rewrite B by auto. rewrite imgs_of_cons_same. exact Hgk.
+         ++ assert (k <> r) by (intros ->; auto). rewrite imgs_of_cons_other by auto. apply A. exact Hr.
+      -- intros r Hr. apply B. intros Hin. apply Hr. right. exact Hin. Qed.
+
+Lemma on_chan_error_istep x s : inv s -> istep s (snd (fst (on_chan_error x s))) (fst (fst (on_chan_error x s))).
+Proof. intros I m [A B]. unfold on_chan_error. cbn [fst snd].
+  destruct (track_chan_subs (next_corr s) x (subs s) (inv_map_ok s KSub I) m) as (m' & T & E1 & E2 & N); auto.
+  { intros r _. rewrite A. apply sub_images_imgs_of. }
+  exists m'. split.
+  - rewrite track_app, T. apply track_no_img. intros c Hc. apply in_app_or in Hc.
+    destruct Hc as [Hc|Hc]; apply chan_cbs_pub_shape in Hc; try congruence; subst c; reflexivity.
+  - constructor; auto. intros r. rewrite sub_images_imgs_of. cbn [subs setm set_orphans].
+    destruct (in_dec Z.eq_dec r (keys (subs s))) as [Hin|Hnin]; [apply E1; exact Hin|].
+    rewrite E2 by exact Hnin. rewrite A, sub_images_imgs_of, imgs_of_not_key by exact Hnin.
+    symmetry. apply imgs_of_not_key. intros Hin. apply chan_keep_keys in Hin. auto. Qed.
+
 Lemma on_event_istep ev s : inv s -> istep s (snd (fst (on_event ev s))) (fst (fst (on_event ev s))).
 Proof. intros I. destruct ev; cbn [on_event].
   - destruct (lookup corr (pubs s)); [destruct (is_awaiting e)|]; cbn [fst snd]; try (apply istep_scalar; reflexivity);
@@ -249,7 +314,8 @@ Proof. intros I. destruct ev; cbn [on_event].
       try (apply istep_other_kind; [congruence|intros c [<-|[]]; reflexivity]).
   - cbn [fst snd]. apply istep_quiet; [intros c [<-|[]]; reflexivity|reflexivity].
   - destruct ((cid =? client_id s) && negb (closed s)); [|cbn; apply istep_scalar; reflexivity].
-    destruct (close_all s) as [[s1 cbs] hang] eqn:E. cbn [fst snd]. eapply close_all_istep'; eauto. Qed.
+    destruct (close_all s) as [[s1 cbs] hang] eqn:E. cbn [fst snd]. eapply close_all_istep'; eauto.
+  - apply on_chan_error_istep; auto. Qed.
 
 (* ---- API calls ---- *)
 Lemma do_add_istep k a1 a2 a3 s : inv s -> istep s (snd (fst (snd (do_add k a1 a2 a3 s)))) (fst (do_add k a1 a2 a3 s)).
@@ -373,7 +439,8 @@ Proof. intros I. destruct o; cbn [step].
   - cbn. apply istep_scalar; reflexivity.
   - cbn. apply istep_scalar; reflexivity.
   - cbn. apply istep_scalar; reflexivity.
-  - apply do_work_istep; auto. Qed.
+  - apply do_work_istep; auto.
+  - unfold do_close_handle. destruct k; try (cbn; apply istep_scalar; reflexivity); destruct (user_obj _ r s); cbn; apply istep_scalar; reflexivity. Qed.
 
 (* closed: no subscription registered, so no image left *)
 Lemma closed_no_images s : inv s -> closed s = true -> forall r, sub_images r s = [].
